@@ -88,9 +88,11 @@ class BufferedPipe:
         """
         self._lock.acquire()
         try:
-            if self._event is not None:
+            data = b(data)
+            # an empty feed must not signal readiness: nothing can be read
+            if self._event is not None and len(data) > 0:
                 self._event.set()
-            self._buffer_frombytes(b(data))
+            self._buffer_frombytes(data)
             self._cv.notify_all()
         finally:
             self._lock.release()
